@@ -5,7 +5,7 @@ Rank.next_rank, Tensor._root / .ranks).  It computes no expected values.
 """
 import sys
 
-sys.path.insert(0, "/repo")
+sys.path.insert(0, __import__("os").environ.get("VERIF_REPO", "/repo"))
 
 from fibertree import Fiber, Payload, Tensor  # noqa: E402
 from fibertree.core.rank import Rank  # noqa: E402
